@@ -10,6 +10,15 @@
 //	mech -dir <worktree> -mode ifflip   every if/else with a plain else block is inverted:
 //	                                    if c {A} else {B}  =>  if !(c) {B} else {A}
 //	mech -dir <worktree> -mode vardecl  every statement "x := e" becomes "var x = e"
+//	mech -dir <worktree> -mode m2f      every unexported method that no interface asks for, that is
+//	                                    never used as a value and never reached through an embedded
+//	                                    field becomes a plain function taking the receiver first:
+//	                                    x.m(a) => m(x, a)  (named T_m when m is not unique)
+//	mech -dir <worktree> -mode fnrename every unexported function or method that no interface asks for
+//	                                    and no test mentions gets the prefix "zz" (all at once)
+//	mech -dir <worktree> -mode f2m      every unexported function whose first parameter is T or *T
+//	                                    for a struct type T of the package becomes a method of T:
+//	                                    f(x, a) => x.f(a)
 //
 // The rewrite is done on the type-checked program (objects, not text), written back with
 // go/format, and must still build.
@@ -44,6 +53,17 @@ func main() {
 		os.Exit(2)
 	}
 	n := 0
+	if *mode == "m2f" || *mode == "f2m" || *mode == "fnrename" {
+		for _, p := range pkgs {
+			if len(p.Errors) > 0 {
+				fmt.Fprintln(os.Stderr, p.Errors)
+				os.Exit(2)
+			}
+			n += reform(p, pkgs, *dir, *mode)
+		}
+		fmt.Printf("mech %s: %d functions changed form\n", *mode, n)
+		return
+	}
 	for _, p := range pkgs {
 		if len(p.Errors) > 0 {
 			fmt.Fprintln(os.Stderr, p.Errors)
@@ -204,4 +224,289 @@ func main() {
 	}
 	fmt.Printf("mech %s: %d files rewritten\n", *mode, n)
 	_ = token.NoPos
+}
+
+// reform converts methods to functions (m2f) or functions to methods (f2m) in one package.
+func reform(p *packages.Package, all []*packages.Package, dir, mode string) int {
+	info := p.TypesInfo
+	inDir := func(i int) bool {
+		return strings.HasPrefix(p.CompiledGoFiles[i], dir) && !strings.HasSuffix(p.CompiledGoFiles[i], "_test.go")
+	}
+	ok := false
+	for i := range p.Syntax {
+		if inDir(i) {
+			ok = true
+		}
+	}
+	if !ok {
+		return 0
+	}
+	// every method name some interface asks for (in any loaded package)
+	ifaceNames := map[string]bool{"Error": true, "String": true}
+	seenPkg := map[*packages.Package]bool{}
+	var visit func(q *packages.Package)
+	visit = func(q *packages.Package) {
+		if seenPkg[q] {
+			return
+		}
+		seenPkg[q] = true
+		if q.Types != nil {
+			sc := q.Types.Scope()
+			for _, nm := range sc.Names() {
+				if tn, ok := sc.Lookup(nm).(*types.TypeName); ok {
+					if it, ok := tn.Type().Underlying().(*types.Interface); ok {
+						for i := 0; i < it.NumMethods(); i++ {
+							ifaceNames[it.Method(i).Name()] = true
+						}
+					}
+				}
+			}
+		}
+		for _, ip := range q.Imports {
+			visit(ip)
+		}
+	}
+	for _, q := range all {
+		visit(q)
+	}
+	// anonymous interfaces in this package's syntax
+	for _, f := range p.Syntax {
+		ast.Inspect(f, func(n ast.Node) bool {
+			if it, ok := n.(*ast.InterfaceType); ok && it.Methods != nil {
+				for _, m := range it.Methods.List {
+					for _, nm := range m.Names {
+						ifaceNames[nm.Name] = true
+					}
+				}
+			}
+			return true
+		})
+	}
+	type use struct {
+		id    *ast.Ident
+		call  *ast.CallExpr // nil: used as a value
+		sel   *ast.SelectorExpr
+		promo bool
+	}
+	uses := map[*types.Func][]use{}
+	for _, f := range p.Syntax {
+		var stack []ast.Node
+		ast.Inspect(f, func(n ast.Node) bool {
+			if n == nil {
+				stack = stack[:len(stack)-1]
+				return true
+			}
+			stack = append(stack, n)
+			id, isId := n.(*ast.Ident)
+			if !isId {
+				return true
+			}
+			fo, _ := info.Uses[id].(*types.Func)
+			if fo == nil {
+				return true
+			}
+			u := use{id: id}
+			if len(stack) >= 2 {
+				switch par := stack[len(stack)-2].(type) {
+				case *ast.CallExpr:
+					if par.Fun == ast.Expr(id) {
+						u.call = par
+					}
+				case *ast.SelectorExpr:
+					if par.Sel == id {
+						u.sel = par
+						if s := info.Selections[par]; s != nil && (len(s.Index()) != 1 || s.Kind() != types.MethodVal) {
+							u.promo = true
+						}
+						if len(stack) >= 3 {
+							if c, isCall := stack[len(stack)-3].(*ast.CallExpr); isCall && c.Fun == ast.Expr(par) {
+								u.call = c
+							}
+						}
+					}
+				}
+			}
+			uses[fo.Origin()] = append(uses[fo.Origin()], u)
+			return true
+		})
+	}
+	// the package's test files are not loaded: a function they mention keeps its form
+	testSrc := ""
+	if len(p.CompiledGoFiles) > 0 {
+		pd := p.CompiledGoFiles[0][:strings.LastIndexByte(p.CompiledGoFiles[0], '/')]
+		if ents, err := os.ReadDir(pd); err == nil {
+			for _, e := range ents {
+				if strings.HasSuffix(e.Name(), "_test.go") {
+					b, _ := os.ReadFile(pd + "/" + e.Name())
+					testSrc += string(b)
+				}
+			}
+		}
+	}
+	taken := map[string]bool{}
+	for _, nm := range p.Types.Scope().Names() {
+		taken[nm] = true
+	}
+	changedFiles := map[*ast.File]bool{}
+	fileOf := func(pos token.Pos) *ast.File {
+		for _, f := range p.Syntax {
+			if f.Pos() <= pos && pos < f.End() {
+				return f
+			}
+		}
+		return nil
+	}
+	n := 0
+	for i, f := range p.Syntax {
+		if !inDir(i) {
+			continue
+		}
+		for _, d := range f.Decls {
+			fd, isFn := d.(*ast.FuncDecl)
+			if !isFn || fd.Body == nil || fd.Type.TypeParams != nil {
+				continue
+			}
+			obj, _ := info.Defs[fd.Name].(*types.Func)
+			if obj == nil || obj.Exported() || fd.Name.Name == "init" || fd.Name.Name == "main" {
+				continue
+			}
+			sig := obj.Type().(*types.Signature)
+			usable := true
+			for _, u := range uses[obj] {
+				if u.call == nil || u.promo {
+					usable = false
+				}
+				if uf := fileOf(u.id.Pos()); uf == nil {
+					usable = false
+				} else {
+					for j, g := range p.Syntax {
+						if g == uf && !inDir(j) {
+							usable = false // called from a test file of the package
+						}
+					}
+				}
+			}
+			if !usable || strings.Contains(testSrc, fd.Name.Name+"(") {
+				continue
+			}
+			switch {
+			case mode == "fnrename":
+				// every private function or method that no interface asks for gets a new name
+				if ifaceNames[fd.Name.Name] {
+					continue
+				}
+				name := "zz" + fd.Name.Name
+				for _, u := range uses[obj] {
+					u.id.Name = name
+					changedFiles[fileOf(u.id.Pos())] = true
+				}
+				fd.Name.Name = name
+				changedFiles[f] = true
+				n++
+			case mode == "m2f" && fd.Recv != nil:
+				if ifaceNames[fd.Name.Name] || len(fd.Recv.List) != 1 {
+					continue
+				}
+				rt := sig.Recv().Type()
+				if pt, ok := rt.(*types.Pointer); ok {
+					rt = pt.Elem()
+				}
+				nt, ok := rt.(*types.Named)
+				if !ok || nt.TypeParams().Len() > 0 {
+					continue
+				}
+				name := fd.Name.Name
+				if taken[name] || types.Universe.Lookup(name) != nil {
+					name = nt.Obj().Name() + "_" + fd.Name.Name
+				}
+				if taken[name] {
+					continue
+				}
+				taken[name] = true
+				_, recvPtr := sig.Recv().Type().(*types.Pointer)
+				for _, u := range uses[obj] {
+					x := u.sel.X
+					_, xPtr := info.TypeOf(x).(*types.Pointer)
+					switch {
+					case recvPtr && !xPtr:
+						x = &ast.UnaryExpr{Op: token.AND, X: x}
+					case !recvPtr && xPtr:
+						x = &ast.StarExpr{X: x}
+					}
+					u.call.Fun = ast.NewIdent(name)
+					u.call.Args = append([]ast.Expr{x}, u.call.Args...)
+					changedFiles[fileOf(u.id.Pos())] = true
+				}
+				recv := fd.Recv.List[0]
+				if len(recv.Names) == 0 {
+					for _, fl := range fd.Type.Params.List {
+						if len(fl.Names) > 0 {
+							recv.Names = []*ast.Ident{ast.NewIdent("_")}
+							break
+						}
+					}
+				}
+				fd.Type.Params.List = append([]*ast.Field{recv}, fd.Type.Params.List...)
+				fd.Recv = nil
+				fd.Name = ast.NewIdent(name)
+				changedFiles[f] = true
+				n++
+			case mode == "f2m" && fd.Recv == nil:
+				if sig.Params().Len() == 0 || sig.Variadic() && sig.Params().Len() == 1 || len(fd.Type.Params.List) == 0 {
+					continue
+				}
+				pt := sig.Params().At(0).Type()
+				if q, ok := pt.(*types.Pointer); ok {
+					pt = q.Elem()
+				}
+				nt, ok := pt.(*types.Named)
+				if !ok || nt.Obj().Pkg() != p.Types || nt.TypeParams().Len() > 0 {
+					continue
+				}
+				if _, isStruct := nt.Underlying().(*types.Struct); !isStruct {
+					continue
+				}
+				if o, _, _ := types.LookupFieldOrMethod(sig.Params().At(0).Type(), true, p.Types, fd.Name.Name); o != nil || ifaceNames[fd.Name.Name] {
+					continue
+				}
+				first := fd.Type.Params.List[0]
+				if len(first.Names) == 0 {
+					continue
+				}
+				for _, u := range uses[obj] {
+					x := u.call.Args[0]
+					switch x.(type) {
+					case *ast.Ident, *ast.SelectorExpr, *ast.CallExpr, *ast.IndexExpr:
+					default:
+						x = &ast.ParenExpr{X: x}
+					}
+					u.call.Fun = &ast.SelectorExpr{X: x, Sel: ast.NewIdent(fd.Name.Name)}
+					u.call.Args = u.call.Args[1:]
+					changedFiles[fileOf(u.id.Pos())] = true
+				}
+				recv := &ast.Field{Names: []*ast.Ident{first.Names[0]}, Type: first.Type}
+				var rest []*ast.Field
+				if len(first.Names) > 1 {
+					rest = append(rest, &ast.Field{Names: first.Names[1:], Type: first.Type})
+				}
+				rest = append(rest, fd.Type.Params.List[1:]...)
+				fd.Recv = &ast.FieldList{List: []*ast.Field{recv}}
+				fd.Type.Params.List = rest
+				changedFiles[f] = true
+				n++
+			}
+		}
+	}
+	for i, f := range p.Syntax {
+		if !changedFiles[f] || !inDir(i) {
+			continue
+		}
+		var buf bytes.Buffer
+		if err := format.Node(&buf, p.Fset, f); err != nil {
+			fmt.Fprintln(os.Stderr, p.CompiledGoFiles[i], err)
+			os.Exit(2)
+		}
+		os.WriteFile(p.CompiledGoFiles[i], buf.Bytes(), 0644)
+	}
+	return n
 }
